@@ -69,6 +69,12 @@ func VerifC19Builtin() {
 		// symbolic bytes only where the result is not re-encoded with encoding/json
 		// (reflection codec on symbolic data is outside the engine)
 		rt.Assume(prod == 0 && cmd != "a" && cmd != "ja" && cmd != "args")
+		// these compile their argument as a regular expression (the engine's regexp model needs
+		// a concrete pattern); they get the hostile concrete arguments only
+		rt.Assume(cmd != "jsplit" && cmd != "tabulate" && cmd != "regexp")
+		// a digit names a live process of the session: what fg / bg / fid-kill then do depends on
+		// the process table (`fg <FID of an ancestor>` waits for itself: reading note in DESIGN.md)
+		rt.Assume(cmd != "fg" && cmd != "bg" && cmd != "fid-kill")
 		block += " " + verifHostile("sym", rt.Param("n"))
 	} else {
 		block += " " + verifArgs[a1]
